@@ -24,6 +24,9 @@ def units(tier, seed):
     else:
         out += [{"stage": "pdag", "p": 5, "codes": c} for c in split_list(_g.sparse_codes(5, 5, (1, 2, 3)), 64)]
         out += _g.dag_units("wdag", 5, 64)
+    # wide graphs (p = 10, node indices >= 8): every PDAG with <= 2 edges and targeted colliders
+    out += [{"stage": "pdag", "p": _g.WIDE_P, "codes": c} for c in split_list(_g.wide_sparse_codes("pdag"), 16)]
+    out.append({"stage": "wide-targeted"})
     return out
 
 
@@ -110,8 +113,14 @@ def check_graph(p, ch, und, A):
     want = all(adjm[i] == ((1 << p) - 1) & ~(1 << i) for i in range(p))
     if ic is not None and bool(ic) != want:
         bad("is_complete", "is_complete(%s) = %r, expected %s" % (Al, ic, want))
-    # subsets: induced_subgraph, is_clique
-    for m in range(1 << p):
+    # subsets: induced_subgraph, is_clique (every subset for p <= 5; pairs, singletons, full set and a few mixed
+    # triples for the wide graphs)
+    if p <= 5:
+        masks = range(1 << p)
+    else:
+        masks = [0, (1 << p) - 1] + [1 << i for i in range(p)] + [(1 << i) | (1 << j) for i in range(p) for j in range(i + 1, p)]
+        masks += [(1 << 1) | (1 << 8) | (1 << 4), (1 << 2) | (1 << 9) | (1 << 0), (1 << 3) | (1 << 8) | (1 << 9) | (1 << 4)]
+    for m in masks:
         Sb = G.bits(m)
         r = run("induced_subgraph", set(Sb), A.copy())
         if r is not None:
@@ -141,11 +150,32 @@ def build(p, code, lab):
 
 def run_unit(unit):
     acc = Acc()
+    if unit["stage"] == "wide-targeted":
+        p = _g.WIDE_P
+        for k, ch in enumerate(_g.wide_targeted()):
+            for lab in ("binint", "generic", "signs:5", "signs:2"):
+                A = _g.np_dag(p, ch, lab)
+                fails, n = check_graph(p, ch, [0] * p, A)
+                acc.states += 1
+                acc.transitions += n
+                acc.traces += 1
+                acc.nontrivial += 1
+                acc.extra["wide_targeted"] += 1
+                acc.outcome(["wide", k, lab])
+                for sig, msg in fails:
+                    acc.fail("wide", {"k": k, "lab": lab}, sig, msg)
+        return acc.out()
     p = unit["p"]
     labs = ("pdag", "pdagf") if unit["stage"] == "pdag" else ("neg", "cancel", "generic", "int")
+    if p > 5:
+        labs = ("pdag",)
     codes = unit["codes"] if "codes" in unit else range(unit["lo"], unit["hi"])
     for code in codes:
-        for lab in labs:
+        labs_here = labs
+        if unit["stage"] == "wdag" and p <= 4:
+            ch0, und0 = G.decode(p, code)
+            labs_here = labs + tuple(_g.sign_labs(p, ch0)) if not any(und0) else labs
+        for lab in labs_here:
             b = build(p, code, lab)
             if b is None:
                 continue
@@ -166,6 +196,9 @@ def run_unit(unit):
 
 
 def replay(kind, case):
+    if kind == "wide":
+        ch = _g.wide_targeted()[case["k"]]
+        return check_graph(_g.WIDE_P, ch, [0] * _g.WIDE_P, _g.np_dag(_g.WIDE_P, ch, case["lab"]))[0]
     b = build(case["p"], case["code"], case["lab"])
     return check_graph(case["p"], b[0], b[1], b[2])[0] if b else []
 
@@ -174,7 +207,8 @@ def describe(tier, seed):
     return {
         "technique": "exhaustive small-scope enumeration of graphs and node subsets on the real code vs set-based definitions",
         "rule": "every PDAG with acyclic directed part p<=4 (int and float 0/1; + sparse 5-node PDAGs) and every DAG p<=4 (p=5 thorough) under "
-                "neg/cancel/generic/int weights; per graph: only_directed, only_undirected (entries preserved, sum = input), skeleton, "
+                "neg/cancel/generic/int weights and every +-1 sign assignment of the edges (p<=4); wide graphs: every 10-node PDAG with <=2 edges and 80 targeted "
+                "colliders whose parents mix node indices below and above 8 (set iteration order); per graph: only_directed, only_undirected (entries preserved, sum = input), skeleton, "
                 "undirected_edges, directed_edges, edge_weights, vstructures, moral_graph, degrees, is_complete, and induced_subgraph / is_clique "
                 "for every node subset; non-trivial: >= 2 edges",
         "exhaustive": True,
